@@ -270,7 +270,7 @@ func genVal(prop string) func(rt *rapid.T) interface{} {
 			}
 			return info[sc.Sel[pos]].Perms
 		}
-		nops := rapid.IntRange(1, 14).Draw(rt, "nops")
+		nops := rapid.IntRange(1, tierScale(14)).Draw(rt, "nops")
 		var kinds []string
 		switch prop {
 		case "C09":
